@@ -1,18 +1,25 @@
 (* C07 — Incremental, batched and replayed sessions agree.
    Property theorems only; proofs in Session/BatchProofs.v, SaveProofs.v,
-   ContextProofs.v.
-   PARTIAL: C07_fold_partial assumes (as Section hypotheses, i.e. premises of the
-   theorem) that the three stages process a statement list as a fold and that
-   the parser reads `a newline b` as the concatenation of the statement lists of
-   a and b (DESIGN.md: C07_parse_concat is a later obligation).  These premises
-   are validated against the implementation by the correspondence check
-   (sessions split and joined at arbitrary points), not proved from the Rust
-   code.  The model has no shared mutable state between a Context and its clone,
+   ContextProofs.v, ToyFold.v, ParseConcat.v.
+   PARTIAL: C07_fold_partial has as premises (a) that the three stages process a
+   statement list as a fold and (b) that the parser reads `a newline b` as the
+   concatenation of the statement lists of a and b.
+   (a) is DISCHARGED for every instance whose stages are defined as folds — shown
+   for the executable instance Session/Toy.v (C07_fold_toy has no premises); for
+   numbat's real stages it remains an assumption about the Rust code (validated by
+   joined/split sessions on the implementation).
+   (b) is PROVED on the statement-level skeleton of Parser::parse
+   (C07_parse_concat_skeleton) from four locality conditions on the single
+   statement parser, and outright for the miniature grammar at the level of the
+   source text (C07_parse_concat_toy); that numbat's statement parser satisfies
+   the locality conditions is validated on the real parser for all ordered pairs
+   of a statement alphabet (tools/props/c07.py), not proved.  The model has no shared mutable state between a Context and its clone,
    so C07_clone is a determinism statement; the absence of sharing in the real
    implementation (Arc payloads) is checked on real cloned Contexts. *)
 From Coq Require Import List String NArith.
 From NV Require Import Session.Resolver Session.ResolverProofs Session.Context Session.ContextProofs
-     Session.BatchProofs Session.SaveProofs Session.Toy Gen.CtxSkeleton.
+     Session.BatchProofs Session.SaveProofs Session.Toy Session.ToyFold Session.ParseConcat Session.FoldStages
+     Gen.CtxSkeleton Gen.ParserLoop.
 Import ListNotations.
 Local Open Scope list_scope.
 
@@ -109,6 +116,112 @@ Section C07save.
     - apply (session_app M M_eqb Code S importer parse A B C T1 T2 EA EB EC V P transform check run).
   Qed.
 End C07save.
+
+(* ---- premise (a) discharged for EVERY instance whose stages are folds over the
+        statement list (per-statement step functions arbitrary; each fold stops at
+        the first failing statement and keeps the state reached; the run step yields
+        the value of an expression statement and the prints and does not consult the
+        name tables).  Only the parser premise (b) remains. ---- *)
+Theorem C07_fold_any_folds :
+  forall (M : Type) (M_eqb : M -> M -> bool) (Code S : Type)
+         (importer : M -> option Code) (parse : Code -> option (list (stmt M S)))
+         (A B C X1 X2 EA EB EC V0 P : Type)
+         (tstep : A -> S -> A * (X1 + EA)) (cstep : B -> X1 -> B * (X2 + EB))
+         (rstep : C -> X2 -> C * (option V0 + EC) * list P) (cat : Code -> Code -> Code),
+    (forall a b pa pb, parse a = Some pa -> parse b = Some pb -> parse (cat a b) = Some (pa ++ pb)) ->
+    forall k fuel c a b cs c1 v1 p1 c2 v2 p2,
+      interpret M M_eqb Code S importer parse A B C (list X1) (list X2) EA EB EC (option V0) P
+                (f_transform S A X1 EA tstep) (f_check B X1 X2 EB cstep) (f_run A B C X2 EC V0 P rstep)
+                k fuel c a cs = (c1, Done M EA EB EC (option V0) P v1 p1) ->
+      interpret M M_eqb Code S importer parse A B C (list X1) (list X2) EA EB EC (option V0) P
+                (f_transform S A X1 EA tstep) (f_check B X1 X2 EB cstep) (f_run A B C X2 EC V0 P rstep)
+                k fuel c1 b cs = (c2, Done M EA EB EC (option V0) P v2 p2) ->
+      exists c2',
+        interpret M M_eqb Code S importer parse A B C (list X1) (list X2) EA EB EC (option V0) P
+                  (f_transform S A X1 EA tstep) (f_check B X1 X2 EB cstep) (f_run A B C X2 EC V0 P rstep)
+                  k fuel c (cat a b) cs
+        = (c2', Done M EA EB EC (option V0) P (keep V0 v1 v2) (p1 ++ p2))
+        /\ ctx_eqv M Code A B C c2' c2.
+Proof. exact folded_batched_equals_incremental. Qed.
+Print Assumptions C07_fold_any_folds.
+
+(* ---- premise (a) discharged for the executable instance ---- *)
+Theorem C07_fold_toy :
+  forall k tbl fuel (c : tctx) a b cs c1 v1 p1 c2 v2 p2,
+    interpret string String.eqb code tstmt (timporter tbl) tparse tA tB tC (list tstmt) typed eA eB eC
+              result string transform check run k fuel c a cs = (c1, Done string eA eB eC result string v1 p1) ->
+    interpret string String.eqb code tstmt (timporter tbl) tparse tA tB tC (list tstmt) typed eA eB eC
+              result string transform check run k fuel c1 b cs = (c2, Done string eA eB eC result string v2 p2) ->
+    exists c2',
+      interpret string String.eqb code tstmt (timporter tbl) tparse tA tB tC (list tstmt) typed eA eB eC
+                result string transform check run k fuel c (cat_code a b) cs
+      = (c2', Done string eA eB eC result string (vmerge v1 v2) (p1 ++ p2))
+      /\ ctx_eqv string code tA tB tC c2' c2.
+Proof. exact toy_batched_equals_incremental. Qed.
+
+(* ---- premise (b) ---- *)
+(* the miniature grammar, at the level of the source text *)
+Theorem C07_parse_concat_toy :
+  forall a b : string,
+    parse_code (a ++ String nl b)%string = cat_code (parse_code a) (parse_code b).
+Proof. exact toy_parse_concat. Qed.
+
+(* the statement loop of Parser::parse over ANY statement parser that is local
+   (see Session/ParseConcat.v for the four conditions) *)
+Theorem C07_parse_concat_skeleton :
+  forall (tok : Type) (is_nl is_semi cont : tok -> bool) (NL : tok),
+    is_nl NL = true ->
+    forall (Stmt Err : Type) (stmt : list tok -> sres tok Stmt Err) (trailing : Err),
+      (forall ts s rest, stmt ts = SOk tok Stmt Err s rest -> List.length rest < List.length ts) ->
+      (forall ts s rest t, stmt ts = SOk tok Stmt Err s rest ->
+                           first_sig tok is_nl is_semi rest = Some t ->
+                           forall X, stmt (ts ++ X) = SOk tok Stmt Err s (rest ++ X)) ->
+      (forall ts s rest X, stmt ts = SOk tok Stmt Err s rest ->
+                           first_sig tok is_nl is_semi rest = None ->
+                           (forall t, first_sig tok is_nl is_semi X = Some t -> cont t = false) ->
+                           stmt (ts ++ NL :: X) = SOk tok Stmt Err s (rest ++ NL :: X)) ->
+      (forall t r s rest, stmt (t :: r) = SOk tok Stmt Err s rest ->
+                          cont t = false /\ sep tok is_nl is_semi t = false) ->
+      forall ta tb la lb,
+        parse tok is_nl is_semi parser_semi_skips Stmt Err stmt trailing ta = POk Stmt Err la ->
+        parse tok is_nl is_semi parser_semi_skips Stmt Err stmt trailing tb = POk Stmt Err lb ->
+        parse tok is_nl is_semi parser_semi_skips Stmt Err stmt trailing (ta ++ NL :: tb)
+        = POk Stmt Err (la ++ lb).
+Proof.
+  intros tok is_nl is_semi cont NL HNL Stmt Err stmt trailing Hp Hl Hs Hst.
+  exact (parse_concat tok is_nl is_semi cont parser_semi_skips NL HNL Stmt Err stmt trailing
+                      Hp Hl Hs Hst (eq_refl : parser_semi_skips = true)).
+Qed.
+
+(* With the statement loop of the pinned tree (the Semicolon arm only advances)
+   the concatenation property is FALSE: statements are single tokens, 0 = newline,
+   1 = semicolon; `5;` and `6` parse, `5;` newline `6` does not.  This was finding
+   C07-semicolon-before-newline (`1;` and `2` succeed, `1;\n2` was a parse
+   error), repaired in the numbat worktree; Gen/ParserLoop.v re-derives the flag
+   from parser.rs on every run. *)
+Definition old_parse := parse nat (Nat.eqb 0) (Nat.eqb 1) false nat unit one_tok tt.
+Definition new_parse := parse nat (Nat.eqb 0) (Nat.eqb 1) parser_semi_skips nat unit one_tok tt.
+
+Theorem C07_semicolon_before_fix_refuted :
+  old_parse [5; 1] = POk nat unit [5] /\ old_parse [6] = POk nat unit [6]
+  /\ old_parse ([5; 1] ++ 0 :: [6]) = PErr nat unit tt
+  /\ new_parse ([5; 1] ++ 0 :: [6]) = POk nat unit [5; 6].
+Proof. vm_compute. repeat split; reflexivity. Qed.
+
+(* non-vacuity of the four locality conditions: they hold for the one-token
+   statement parser, so concatenation holds for it outright (with the loop as it
+   is in parser.rs now) *)
+Theorem C07_parse_concat_one_tok :
+  forall ta tb la lb,
+    new_parse ta = POk nat unit la -> new_parse tb = POk nat unit lb ->
+    new_parse (ta ++ 0 :: tb) = POk nat unit (la ++ lb).
+Proof. exact (one_tok_parse_concat parser_semi_skips (eq_refl : parser_semi_skips = true)). Qed.
+
+Print Assumptions C07_parse_concat_one_tok.
+Print Assumptions C07_fold_toy.
+Print Assumptions C07_parse_concat_toy.
+Print Assumptions C07_parse_concat_skeleton.
+Print Assumptions C07_semicolon_before_fix_refuted.
 
 Print Assumptions C07_fold_partial.
 Print Assumptions C07_save_lines.
